@@ -56,7 +56,7 @@ PROPS = {
         "design_ref": "DESIGN.md §3.14, §4 C02",
     },
     "C15": {
-        "rules": ["BACKPIPE", "TRAV@C15", "TRAVBASE", "MEMGATE", "CALLBOUNDARY", "TYPETABLES", "CONDSPEC", "PRECSOURCE", "BASEKEY", "ENVNAME", "TOKENGLUE", "EXTERNNAME", "DECLUSESYNC", "EXH", "FRESHNAME"],
+        "rules": ["BACKPIPE", "TRAV@C15", "TRAVBASE", "MEMGATE", "CALLBOUNDARY", "TYPETABLES", "CONDSPEC", "PRECSOURCE", "BASEKEY", "ENVNAME", "TOKENGLUE", "EXTERNNAME", "WINCONSTARG", "DECLUSESYNC", "EXH", "FRESHNAME"],
         "thorough": [],
         "technique": "static analysis: pipeline def-use chain, traversal completeness of the global collectors, gate-dominance and call-boundary checks, type-table agreement",
         "level_text": "Structural clauses: every compiled procedure (transitively) passes Parallel/Precision/Window/Memory analysis in that order before "
